@@ -310,6 +310,13 @@ PersistentCollision(f, c) ==
     /\ LET pr == { << p[1], f >>, << f, p[1] >> } \cap DOMAIN coll IN
        \E x \in pr : Cardinality(coll[x] \cup { cfg.key }) >= 3
 
+(* the key is an input of the cookie as well: the same flow keeping one cookie under three *)
+(* different keys (chance 2^-64) does not depend on it.  Remembered in `coll` under the    *)
+(* flow paired with the cookie value.                                                     *)
+SelfKey(f, c) == << f, << c >> >>
+SameUnderThreeKeys(f, c) ==
+    SelfKey(f, c) \in DOMAIN coll /\ Cardinality(coll[SelfKey(f, c)] \cup { cfg.key }) >= 3
+
 (* C06 *)
 SynAckOK(b, r) ==
     LET t == TcpCtx(b)  rs == L4Start(r) IN
@@ -318,6 +325,7 @@ SynAckOK(b, r) ==
     \cup V("C06", "ack-is-seq-plus-1", TcpAck(r, rs) = Add32(t.seq, 1))
     \cup V("C06", "no-payload", Len(r) = TcpDataStartR(r))
     \cup V("C06", "cookie-depends-on-every-input", ~PersistentCollision(t.flow, TcpSeq(r, rs)))
+    \cup V("C06", "cookie-depends-on-the-key", ~SameUnderThreeKeys(t.flow, TcpSeq(r, rs)))
     \cup (IF Bound(t.flow)
           THEN V("C06", "cookie-deterministic", TcpSeq(r, rs) = ck[t.flow])
           ELSE V("C07", "cookie-consistent-with-earlier-rejection",
@@ -636,6 +644,15 @@ AfterGroups(b, obs) ==
 (* that agree on its own flow (one of them contains nothing else); the two *)
 (* observations must be equal modulo wall-clock fields.                    *)
 (***************************************************************************)
+(* headers of a TCP / UDP reply frame up to its payload (hend), with the fields that depend on *)
+(* the payload's length or bytes zeroed: IP total / payload length, IPv4 header checksum, the   *)
+(* transport checksum at offset co (and the UDP length before it)                              *)
+MaskLenCsum(r, rs, co) ==
+    LET hend == IF co = rs + 16 THEN TcpDataStartR(r) ELSE rs + 8
+        z == (IF EthType(r) = ETH_IP4 THEN { 17, 18, 25, 26 } ELSE { 19, 20 })
+             \cup { co + 1, co + 2 } \cup (IF co = rs + 6 THEN { rs + 5, rs + 6 } ELSE {})
+    IN [ i \in 1..hend |-> IF i \in z THEN 0 ELSE r[i] ]
+
 ReplyCanon(b, obs) ==
     LET r == obs.rep
         o == ExpectL2(b)
@@ -643,13 +660,13 @@ ReplyCanon(b, obs) ==
     IF obs.kind # "reply" THEN << obs.kind >>
     ELSE IF o.layers = << "eth", "ipv4", "tcp" >> \/ o.layers = << "eth", "ipv6", "tcp" >>
     THEN IF ~ReplyShape(b, r, 20) THEN r
-         ELSE LET rs == L4Start(r) IN
-              << TcpFlags(r, rs), TcpSeq(r, rs), TcpAck(r, rs), TcpSport(r, rs), TcpDport(r, rs),
-                 AppCanon("tcp", Bytes(r, TcpDataStartR(r), Len(r))) >>
+         ELSE LET rs == L4Start(r)  ds == TcpDataStartR(r) IN
+              (* the whole frame; the lengths and checksums that follow the masked clock fields zeroed *)
+              << MaskLenCsum(r, rs, rs + 16), ClockCanon("tcp", Bytes(r, ds, Len(r))) >>
     ELSE IF o.kind = "udp"
     THEN IF ~ReplyShape(b, r, 8) THEN r
          ELSE LET rs == L4Start(r) IN
-              << UdpSport(r, rs), UdpDport(r, rs), AppCanon("udp", Bytes(r, rs + 8, Len(r))) >>
+              << MaskLenCsum(r, rs, rs + 6), ClockCanon("udp", Bytes(r, rs + 8, Len(r))) >>
     ELSE r
 
 PairJudge(b, obs) ==
@@ -708,11 +725,14 @@ AfterByck(b, obs) ==
 AfterColl(b, obs) ==
     LET nb == NewBinding(b, obs) IN
     IF nb = << >> THEN coll
-    ELSE LET p == CollisionPartner(nb[1], nb[2]) IN
-         IF p = << >> THEN coll
-         ELSE LET x == IF << p[1], nb[1] >> \in DOMAIN coll THEN << p[1], nb[1] >>
-                       ELSE IF << nb[1], p[1] >> \in DOMAIN coll THEN << nb[1], p[1] >> ELSE << p[1], nb[1] >>
-              IN (x :> ((IF x \in DOMAIN coll THEN coll[x] ELSE {}) \cup { cfg.key })) @@ coll
+    ELSE LET p == CollisionPartner(nb[1], nb[2])
+             sk == SelfKey(nb[1], nb[2])
+             coll1 == (sk :> ((IF sk \in DOMAIN coll THEN coll[sk] ELSE {}) \cup { cfg.key })) @@ coll
+         IN
+         IF p = << >> THEN coll1
+         ELSE LET x == IF << p[1], nb[1] >> \in DOMAIN coll1 THEN << p[1], nb[1] >>
+                       ELSE IF << nb[1], p[1] >> \in DOMAIN coll1 THEN << nb[1], p[1] >> ELSE << p[1], nb[1] >>
+              IN (x :> ((IF x \in DOMAIN coll1 THEN coll1[x] ELSE {}) \cup { cfg.key })) @@ coll1
 
 AfterCkx(b, obs) ==
     LET o == ExpectL2(b) IN
